@@ -315,6 +315,16 @@ func runProgram(p Program) (map[string]float64, *rig.Violation) {
 						} else if err != nil || got != path {
 							fail(rig.Violf("url-untouched", "%s: strict URL(%q, %v) = %q, %v; want %q", where, u.pattern, params, got, err, path))
 						}
+					} else if i%3 == 0 {
+						// non-strict: no tree involved, only the pattern parser (shared by every router in the process)
+						pattern := fmt.Sprintf(`/u%d/{id:\d+}/{name:[a-z]+}-%d`, ri, i)
+						var got string
+						var err error
+						if v, panicked := rig.Try(func() { got, err = r.URL(false, pattern, map[string]string{"id": "7", "name": "n"}) }); panicked {
+							fail(rig.Violf("reader-fault", "%s: URL panicked: %v", where, v))
+						} else if want := fmt.Sprintf("/u%d/7/n-%d", ri, i); err != nil || got != want {
+							fail(rig.Violf("url-nonstrict", "%s: URL(false, %q) = %q, %v; want %q", where, pattern, got, err, want))
+						}
 					} else {
 						tg := toggled[op.P-len(untouched)]
 						params := map[string]string{"id": "v1", "a": "a", "any": "zzz", "z": "q", "w": "w"}
@@ -361,6 +371,39 @@ func runProgram(p Program) (map[string]float64, *rig.Violation) {
 		}
 		fmt.Printf("CHILD-STALL %d goroutines, %d blocked on the lock\n", prog, blocked)
 		os.Exit(5)
+	}
+	// quiescent again: a toggled route that some writer registered and that no operation of the program
+	// could have removed (no Remove of it, no Prefix.Clean of one of its prefixes) must be live now
+	removable := map[string]bool{}
+	registered := map[string]bool{}
+	for _, i := range p.Pre {
+		registered[toggled[i].pattern] = true
+	}
+	for _, ops := range p.Writers {
+		for _, op := range ops {
+			switch op.Kind {
+			case "handle":
+				registered[toggled[op.P].pattern] = true
+			case "remove", "removeM":
+				removable[toggled[op.P].pattern] = true
+			case "cleanPrefix":
+				for _, tg := range toggled {
+					if strings.HasPrefix(tg.pattern, cleanPrefixes[op.P]) {
+						removable[tg.pattern] = true
+					}
+				}
+			}
+		}
+	}
+	if viol.Load() == nil {
+		routes := r.Routes()
+		for _, tg := range toggled {
+			if registered[tg.pattern] && !removable[tg.pattern] {
+				if _, ok := routes[tg.pattern]; !ok {
+					fail(rig.Violf("never-removed-route-lost", "%q was registered and no operation of the program removes it, but after all goroutines finished Routes() does not list it: %v", tg.pattern, routes))
+				}
+			}
+		}
 	}
 	st := map[string]float64{"reader_ops": float64(rops.Load()), "writer_ops": float64(wops.Load()), "overlapping_reader_ops": float64(overlaps.Load())}
 	return st, viol.Load()
